@@ -478,13 +478,14 @@ func (p *KVStore) updateHtlcKey(paymentHash lntypes.Hash,
 
 		htlcsBucket := bucket.NestedReadWriteBucket(paymentHtlcsBucket)
 		if htlcsBucket == nil {
-			return fmt.Errorf("htlcs bucket not found")
+			return fmt.Errorf("%w: htlcs bucket not found",
+				ErrAttemptNotRegistered)
 		}
 
 		attemptKey := htlcBucketKey(htlcAttemptInfoKey, aid)
 		if htlcsBucket.Get(attemptKey) == nil {
-			return fmt.Errorf("HTLC with ID %v not registered",
-				attemptID)
+			return fmt.Errorf("%w: HTLC with ID %v",
+				ErrAttemptNotRegistered, attemptID)
 		}
 
 		// Make sure the shard is not already failed or settled.
